@@ -28,29 +28,74 @@ THEOREMS = [
     (M, "C03.missing_file", "add(): missing = number of non-junk reference entities, missing_w = their word sum, in two updateStats calls; nothing if ignored"),
     (M, "C03.po_keys_never_bindings", "gettext tuple keys are never key bindings; shared gettext strings are classified by equals"),
     (M, "C03.distinct_ok", "first-occurrence de-duplication is a duplicate-free list with the same members (the 'distinct keys' the theorems quantify over exist)"),
+    # ---- round 4
+    (M, "C03.job_leaves_other_locales_alone", "one comparer, many jobs: compare()/add()/remove() on files whose locale is not L leaves summary[L] of the "
+        "ObserverList and of every project observer untouched (false if the per-locale dicts of Observer.__init__ are shared)"),
+    (M, "C03.session_summary_is_locale_sum", "after any sequence of compare/add/remove calls on one ContentComparer, summary[L][k] of the list and of each "
+        "project observer = its old value + the sum over the calls that touch locale L only of what that call's notifications and stats count"),
+    (M, "C03.compare_job_adds_its_counts", "one compare() inside a session pushes exactly the stats of compareEntities (under the verdicts "
+        "ObserverList.notify returns for the project filters) and the nine counters of the localized file's locale grow by them, no other locale's"),
+    (M, "C03.unfiltered_job_is_plain_comparison", "with unfiltered project observers the verdict is 'error' for every key: missing_set, obsolete_set, "
+        "shared_once, counts_partition describe each job of a session"),
+    (M, "C03.fluent_equals_is_erased_equality", "FluentEntity.equals = same id, same value and (messages) same attributes in order, compared on the AST "
+        "with every span erased; comments are not looked at"),
+    (M, "C03.fluent_attribute_equals", "FluentAttribute.equals = same name and same span-erased pattern"),
+    (M, "C03.fluent_equals_equivalence", "between two messages or two terms equals is reflexive, symmetric and transitive"),
+    (M, "C03.fluent_equals_ignores_spans_and_comments", "an entry equals its re-spanned self, word counts do not depend on spans, the entity lists of a "
+        "Fluent file do not depend on comments"),
+    (M, "C03.fluent_word_counts", "WordCounter: a select expression counts the text of ALL its variants and nothing of the selector; literals and "
+        "references count nothing; a message counts value and attributes, a term its value only"),
+    (M, "C03.fluent_classes_are_equals", "the equality classes handed to the comparison loop for two Fluent files agree iff equals holds: changed <=> not equals"),
+    (M, "C03.fluent_words_partition", "missing_w + changed_w + unchanged_w add up for Fluent files (instance of words_partition on the AST-level entity lists)"),
+    (M, "C03.unchanged_by_value_not_raw", "a shared non-binding key is unchanged iff key and val (unescaped) agree; raw_val is not looked at; words are "
+        "those of the reference val"),
+    (M, "C03.properties_same_unescape_same_value", ".properties: val = documented unescape of raw_val (C02), so raw texts that unescape to one text are one value"),
+    (M, "C03.duplicates_same_key_sequence", "reference with duplicated keys vs a localization with the identical key sequence: nothing missing/obsolete, "
+        "changed + unchanged + keys = number of DISTINCT reference keys"),
+    (M, "C03.keyed_probe_spec", "KeyedTuple: `x in entities` holds exactly for entity keys and the tuple's own entity objects; entities[key] is the LAST "
+        "entity with that key, an absent key raises TypeError"),
 ]
 PARTIAL = [
-    "Entity.equals and count_words of Fluent (AST based) and the parsers of Fluent/Android are inputs of the model "
-    "(entity lists of the real parser), not modelled; Entry.count_words (re_br/re_sgml/split) is modelled and checked differentially",
-    "checkers are outside the model: their messages are removed from the details before the comparison and subtracted from errors/warnings",
+    "the parsers of Fluent / Android / DTD(&-entities) are inputs: the comparison of Fluent files is modelled from the fluent.syntax AST "
+    "(count_words, equals are Lean functions: c03.ftlcmp / c03.ftlwords / c03.ftleq), of Android and DTD files from the real entity lists "
+    "(key, junk flag, count_words, equality class under the real equals)",
+    "checkers: modelled end to end for .properties / .ini / .inc / .po jobs of a session (composition with the C05/C06 models: the FULL details "
+    "and all eleven counters are compared); for dtd / ftl / android jobs the checker's messages are an input of the session model (placed and "
+    "counted by the model, produced by the real checker) and, in the single-comparison stream c03.cmp, subtracted as before",
+    "session theorems: what a job adds is stated over its own event block (existentially quantified history); that the block of a job does not "
+    "depend on the summaries accumulated before (only on the filters) is proved for the stats of comparisons (compare_job_adds_its_counts), not "
+    "stated as a separate determinism theorem for add/remove",
+    "Fluent equals is an equivalence between entries of the same class only: across classes (a Term against a Message) it is not symmetric "
+    "(kernel-checked witness in Props/C03.lean); the comparer never evaluates that case (keys differ)",
 ]
-LEVEL_TEXT = ("Lean 4 theorems over an executable transliteration of ContentComparer.compare's loop (on top of the proved closed form of "
-              "AddRemove and of KeyedTuple lookup): for ALL pairs of entity lists, including duplicate keys, the loop terminates without "
-              "error, the missing / obsolete notifications are exactly the set differences of the non-junk keys, every shared key is counted "
-              "in exactly one of keys/unchanged/changed, and the counters and word sums partition the distinct reference keys; the model is "
-              "tied to the Python by differential runs of the real compare()/add() on generated (records, edit script) pairs in all seven "
-              "formats, and an independent oracle derives the expected sets, counts and word sums from the edit script alone")
-LEVEL_NOTE = ("trusted: Lean kernel; hand-written model CLModel/Compare/Content.lean (validated by correspondence on every run); the entity "
-              "lists (key, junk flag, count_words, equality classes under the real equals) are taken from the real parsers; regexes keyRE, "
-              "re_br, re_sgml are regenerated from /repo on every run; checkers and merging are out of scope")
+LEVEL_TEXT = ("Lean 4 theorems over executable transliterations of ContentComparer.compare's loop, of ContentComparer.compare/add/remove driven "
+              "through ONE ObserverList for a sequence of (locale, file) jobs, and of Fluent count_words/equals on the AST: for ALL pairs of "
+              "entity lists, including duplicate keys, the loop terminates without error, the missing / obsolete notifications are exactly the "
+              "set differences of the non-junk keys, every shared key is counted in exactly one of keys/unchanged/changed (by VALUE, not raw "
+              "text; for Fluent by AST equality modulo spans and comments), the counters and word sums partition the distinct reference keys; "
+              "for ANY job sequence the summary of a locale is the sum over that locale's jobs only, for the list and every project observer; "
+              "tied to the Python by differential runs of the real compare()/add()/remove() on generated (records, edit script) pairs in all "
+              "seven formats and on generated multi-locale sessions, with an independent by-construction oracle")
+LEVEL_NOTE = ("trusted: Lean kernel; hand-written models CLModel/Compare/{Content,Session,FluentEnt}.lean (validated by correspondence on every "
+              "run) on top of the Observer/Tree models (C10), the pipeline models (C05: parser, values, checkers, merge) and AddRemove (C20); "
+              "for dtd/android the entity lists (key, junk flag, count_words, equality classes) are taken from the real parsers, for Fluent the "
+              "fluent.syntax AST; regexes keyRE, re_br, re_sgml are regenerated from /repo on every run")
 TECHNIQUE = "Lean 4 proof over executable model (corollaries of the AddRemove closed form) + differential correspondence + by-construction oracle"
 TRUSTED = [
     "hand-written model CLModel/Compare/Content.lean of ContentComparer.compare/add, Observer.notify, Parser.findDuplicates, Entry.count_words "
     "(tied by the c03.cmp / c03.add / c03.words correspondence)",
-    "entity abstraction (key, junk, words, equality class) computed from the real parser objects by harness/impl/compare.py",
+    "hand-written model CLModel/Compare/Session.lean of ContentComparer.compare/add/remove on the ObserverList model, incl. the no-parser, "
+    "read-error and copy branches and KeyedTuple.__contains__/__getitem__ (tied by c03.sess / c03.keyed)",
+    "hand-written model CLModel/Compare/FluentEnt.lean of WordCounter, BaseNode.equals / scalars_equal, FluentEntity.equals, "
+    "FluentAttribute.equals (tied by c03.ftlwords / c03.ftleq / c03.ftlcmp; the fluent.syntax AST is an input)",
+    "entity abstraction (key, junk, words, equality class) computed from the real parser objects by harness/impl/compare.py (dtd, android; "
+    "and all formats in c03.cmp)",
 ]
-ASSUMPTIONS = ["one Observer without filter (nothing filtered) for the oracle; filters are exercised in the correspondence only",
-               "files are read as UTF-8 text without carriage returns"]
+ASSUMPTIONS = ["the oracle judges comparisons in which nothing is filtered: one or two project observers without filter, or two project observers "
+               "that partition the files between them (every file owned by one); entity- and file-level filter verdicts are exercised in the "
+               "correspondence only",
+               "files are read as UTF-8 text without carriage returns",
+               "sessions: Junk.junkid is reset before every job (junk keys are process-global counters, not part of any report)"]
 
 FORMATS = ["properties", "dtd", "ini", "inc", "ftl", "po", "android"]
 
@@ -141,6 +186,10 @@ def xml_esc(s):
 
 def print_record(fmt, key, vi, variant):
     """raw text of one record with value index `vi` (variant 1: a different spelling of the same value)"""
+    if vi >= 2000:
+        return print_spelling(fmt, key, vi)
+    if vi >= 1000:
+        return ftl_render(key, FTL_FLAT[vi - 1000][1], variant)
     val = value_of(fmt, key, vi)
     if fmt == "properties":
         raw = val
@@ -212,6 +261,8 @@ def value_of(fmt, key, vi):
     """the raw value index -1 is the empty msgstr of a gettext template"""
     if vi < 0:
         return ""
+    if vi >= 2000:
+        return SPELLINGS[vi - 2000][2]
     if fmt == "ftl":
         return fval(vi)[0]
     return VALUES[vi][0]
@@ -222,6 +273,10 @@ def sem(fmt, key, vi):
     its attributes, a Fluent term its value only (attributes of terms are private)"""
     if vi < 0:
         return key[0]
+    if vi >= 2000:
+        return SPELLINGS[vi - 2000][2]
+    if vi >= 1000:
+        return ftl_sig(key, FTL_FLAT[vi - 1000][1])
     if fmt == "ftl":
         text, attrs = fval(vi)
         return (text,) if key.startswith("-") else (text, attrs)
@@ -229,6 +284,10 @@ def sem(fmt, key, vi):
 
 
 def words(fmt, key, vi):
+    if vi >= 2000:
+        return SPELLINGS[vi - 2000][3]
+    if vi >= 1000:
+        return ftl_words(key, FTL_FLAT[vi - 1000][1])
     if fmt == "ftl":
         text, attrs = fval(vi)
         n = len(text.split()) if text is not None else 0
@@ -242,6 +301,271 @@ def words(fmt, key, vi):
 
 def is_binding(fmt, key):
     return fmt != "po" and ("key" in key or "Key" in key)
+
+
+# ------------------------------------------------------------------ round 4: explicit raw spellings (raw_val differs, val is the same)
+# (format, raw text as written in the file, the value it stands for, words of that value); value index = 2000 + position
+SPELLINGS = [
+    ("properties", "café time", "café time", 2),
+    ("properties", "caf\\u00e9 time", "café time", 2),
+    ("properties", "caf\\u00E9 \\\n      time", "café time", 2),          # line continuation: backslash, newline, indentation dropped
+    ("properties", "c\\af\\u00e9\\ time", "café time", 2),                 # `\c` -> c for any other character
+    ("properties", "caf\\u00e8 time", "cafè time", 2),                     # another value
+    ("properties", "one\\ttab", "one\ttab", 2),
+    ("properties", "one\\u0009tab", "one\ttab", 2),
+    # values the PropertiesChecker / base Checker has something to say about (as localizations of one another)
+    ("properties", "%1$S and %2$S", "%1$S and %2$S", 3),
+    ("properties", "%2$S und %1$S", "%2$S und %1$S", 3),
+    ("properties", "%1$S und %3$S", "%1$S und %3$S", 3),
+    ("properties", "%d und %S", "%d und %S", 3),
+    ("properties", "bad \\q escape", "bad q escape", 3),
+    ("properties", "moji \ufffd bake", "moji \ufffd bake", 3),
+    ("dtd", "Tom &amp; Jerry", "Tom & Jerry", 3),
+    ("dtd", "Tom &#38; Jerry", "Tom & Jerry", 3),
+    ("dtd", "Tom &#x26; Jerry", "Tom & Jerry", 3),
+    ("dtd", "Tom &#x0026; Jerry", "Tom & Jerry", 3),
+    ("dtd", "Tom &lt; Jerry", "Tom < Jerry", 3),
+    ("dtd", "caf&eacute; time", "café time", 2),
+    ("dtd", "café time", "café time", 2),
+    ("android", "Tom &amp; Jerry", "Tom & Jerry", 3),
+    ("android", "Tom &#38; Jerry", "Tom & Jerry", 3),
+    ("android", "<![CDATA[Tom & Jerry]]>", "Tom & Jerry", 3),
+    ("android", "Tom &lt; Jerry", "Tom < Jerry", 3),
+    ("po", '"" "Tom & " "Jerry"', "Tom & Jerry", 3),
+    ("po", '"Tom & Jerry"', "Tom & Jerry", 3),
+    ("po", '"Tom &\\tJerry"', "Tom &\tJerry", 3),
+]
+
+
+def print_spelling(fmt, key, vi):
+    raw = SPELLINGS[vi - 2000][1]
+    if fmt == "properties":
+        return "%s = %s" % (key, raw)
+    if fmt == "dtd":
+        return '<!ENTITY %s "%s">' % (key, raw)
+    if fmt == "android":
+        return '  <string name="%s">%s</string>' % (key, raw)
+    if fmt == "po":
+        msgid, ctxt = key
+        out = "" if ctxt is None else 'msgctxt "%s"\n' % ctxt
+        return out + 'msgid "%s"\nmsgstr %s\n' % (msgid, raw)
+    raise ValueError(fmt)
+
+
+# ------------------------------------------------------------------ round 4: Fluent entries with select expressions, terms, references
+# pattern := [piece]; piece := text | ("var", name) | ("lit", text) | ("num", text) | ("msg", id, attr) | ("term", id, attr, args)
+#          | ("fn", NAME, args) | ("nest", piece) | ("sel", selector piece, [(key, is default, pattern)]);  args := ([piece], [(name, piece)])
+def _sel(var, *variants):
+    return ("sel", ("var", var), list(variants))
+
+
+SEL_N = _sel("n", ("one", False, ["One thing"]), ("other", True, [("var", "n"), " things here"]))
+# slot key -> alternative (value pattern or None, [(attribute name, pattern)]); alternative 0 is the reference
+FTL_AST = {
+    "alpha": [
+        (["You have ", SEL_N, " today"], []),
+        (["You have ", _sel("n", ("one", False, ["One item"]), ("other", True, [("var", "n"), " things here"])), " today"], []),
+        (["You have ", _sel("n", ("one", True, ["One thing"]), ("other", False, [("var", "n"), " things here"])), " today"], []),
+        (["You have ", _sel("n", ("other", True, [("var", "n"), " things here"]), ("one", False, ["One thing"])), " today"], []),
+        (["You have ", _sel("m", ("one", False, ["One thing"]), ("other", True, [("var", "n"), " things here"])), " today"], []),
+        (["You have ", _sel("n", ("1", False, ["One thing"]), ("other", True, [("var", "n"), " things here"])), " today"], []),
+    ],
+    "gamma": [
+        (["Hello ", ("nest", ("var", "user")), " and ", ("lit", "not counted words"), " bye now"], []),
+        (["Hello ", ("var", "user"), " and ", ("lit", "not counted words"), " bye now"], []),
+        (["Hello ", ("nest", ("var", "user")), " and ", ("lit", "other literal"), " bye now"], []),
+        (["Hello ", ("nest", ("var", "user")), " and ", ("num", "3"), " bye now"], []),
+    ],
+    "beta": [
+        (None, [("label", ["Open ", SEL_N]), ("title", ["tip text"])]),
+        (None, [("title", ["tip text"]), ("label", ["Open ", SEL_N])]),
+        (None, [("label", ["Open ", SEL_N])]),
+        (["Open"], [("label", ["Open ", SEL_N]), ("title", ["tip text"])]),
+    ],
+    "-term": [
+        (["Fire ", _sel("case", ("nominative", True, ["the Browser"]), ("genitive", False, ["of the Browser"]))], [("gender", ["masculine word"])]),
+        (["Fire ", _sel("case", ("nominative", True, ["the Browser"]), ("genitive", False, ["of the Browser"]))], [("gender", ["feminine"])]),
+        (["Fire ", _sel("case", ("nominative", True, ["the Browser"]), ("genitive", False, ["of a Browser"]))], [("gender", ["masculine word"])]),
+        (["Fire ", _sel("case", ("nominative", True, ["the Browser"]), ("genitive", False, ["of the Browser"]))], []),
+    ],
+    "delta": [
+        (["Use ", ("term", "term", None, ([], [("case", ("lit", "genitive"))])), " or ", ("msg", "alpha", None), " at ",
+          ("fn", "NUMBER", ([("var", "n")], [("minimumFractionDigits", ("num", "2"))]))], []),
+        (["Use ", ("term", "term", None, ([], [("case", ("lit", "nominative"))])), " or ", ("msg", "alpha", None), " at ",
+          ("fn", "NUMBER", ([("var", "n")], [("minimumFractionDigits", ("num", "2"))]))], []),
+        (["Use ", ("term", "term", None, ([], [("case", ("lit", "genitive"))])), " or ", ("msg", "beta", "label"), " at ",
+          ("fn", "NUMBER", ([("var", "n")], [("minimumFractionDigits", ("num", "2"))]))], []),
+        (["Use ", ("term", "term", None, None), " or ", ("msg", "alpha", None), " at ",
+          ("fn", "NUMBER", ([("var", "n")], [("minimumFractionDigits", ("num", "2"))]))], []),
+        (["Use ", ("term", "other-term", None, None), " or ", ("msg", "alpha", None), " at ",
+          ("fn", "NUMBER", ([("var", "n")], [("minimumFractionDigits", ("num", "3"))]))], []),
+    ],
+    "k": [
+        ([_sel("a", ("x", False, ["outer one ", _sel("b", ("y", True, ["inner deep words"]), ("w", False, ["other"]))]), ("z", True, ["last"]))], []),
+        ([_sel("a", ("x", False, ["outer one ", _sel("b", ("y", True, ["inner shallow"]), ("w", False, ["other"]))]), ("z", True, ["last"]))], []),
+        ([_sel("a", ("x", False, ["outer one ", _sel("b", ("y", True, ["inner deep words"]))]), ("z", True, ["last"]))], []),
+        (["first line\nsecond line ", ("fn", "DATETIME", ([("nest", _sel("c", ("u", True, ["counted inside call"])))], []))], []),
+    ],
+}
+FTL_FLAT = [(k, alt) for k, alts in FTL_AST.items() for alt in alts]
+FTL_SLOTS = list(FTL_AST)
+
+
+def ftl_vi(key, n):
+    return 1000 + FTL_FLAT.index((key, FTL_AST[key][n]))
+
+
+def _r_expr(e, ind, tight, depth):
+    sp = "" if tight else " "
+    kind = e[0]
+    if kind == "var":
+        return "$" + e[1]
+    if kind == "lit":
+        return '"%s"' % e[1]
+    if kind == "num":
+        return e[1]
+    if kind == "msg":
+        return e[1] + ("." + e[2] if e[2] else "")
+    if kind in ("term", "fn"):
+        head = ("-" + e[1] + ("." + e[2] if e[2] else "")) if kind == "term" else e[1]
+        args = e[3] if kind == "term" else e[2]
+        if args is None:
+            return head
+        items = [_r_expr(a, ind, tight, depth) for a in args[0]] + ["%s:%s%s" % (n, sp, _r_expr(v, ind, tight, depth)) for n, v in args[1]]
+        return head + "(" + ("," + sp).join(items) + ")"
+    if kind == "nest":
+        return "{" + sp + _r_expr(e[1], ind, tight, depth) + sp + "}"
+    if kind == "sel":
+        out = _r_expr(e[1], ind, tight, depth) + " ->"
+        for key, default, pat in e[2]:
+            out += "\n" + ind * (depth + 1) + ("*" if default else (" " if not tight else "")) + "[" + key + "]" + " " + _r_pat(pat, ind, tight, depth + 1)
+        return out + "\n" + ind * depth
+    raise ValueError(kind)
+
+
+def _r_pat(pat, ind, tight, depth):
+    sp = "" if tight else " "
+    out = ""
+    for p in pat:
+        if isinstance(p, str):
+            out += p.replace("\n", "\n" + ind * (depth + 1))
+        elif p[0] == "sel":
+            out += "{" + sp + _r_expr(p, ind, tight, depth + 1) + "}"
+        else:
+            out += "{" + sp + _r_expr(p, ind, tight, depth + 1) + sp + "}"
+    return out
+
+
+def ftl_render(key, alt, variant):
+    """variant 0: four spaces, airy braces; variant 1: a comment, two spaces, tight braces — the same entry"""
+    ind, tight = ("    ", False) if not variant else ("  ", True)
+    value, attrs = alt
+    out = ("# a comment\n# over two lines\n" if variant else "") + key + " ="
+    if value is not None:
+        out += " " + _r_pat(value, ind, tight, 0)
+    for name, pat in attrs:
+        out += "\n" + ind + "." + name + " = " + _r_pat(pat, ind, tight, 1)
+    return out
+
+
+def _w_pat(pat):
+    n = 0
+    for p in pat:
+        n += len(p.split()) if isinstance(p, str) else _w_expr(p)
+    return n
+
+
+def _w_expr(e):
+    kind = e[0]
+    if kind == "nest":
+        return _w_expr(e[1])
+    if kind == "sel":
+        return sum(_w_pat(pat) for _, _, pat in e[2])          # all variants, not the selector
+    if kind in ("term", "fn"):
+        args = e[3] if kind == "term" else e[2]
+        return sum(_w_expr(a) for a in args[0]) if args else 0
+    return 0                                                   # literals and references hold no text element
+
+
+def ftl_words(key, alt):
+    value, attrs = alt
+    n = _w_pat(value) if value is not None else 0
+    if not key.startswith("-"):
+        n += sum(_w_pat(pat) for _, pat in attrs)
+    return n
+
+
+def _freeze(x):
+    return tuple(_freeze(y) for y in x) if isinstance(x, (list, tuple)) else x
+
+
+def ftl_sig(key, alt):
+    """what `equals` looks at: id, value, and (messages only) the attributes in order"""
+    value, attrs = alt
+    return (key, _freeze(value)) if key.startswith("-") else (key, _freeze(value), _freeze(attrs))
+
+
+def gen_directed(ctx, fmt):
+    """round 4 directed families: verbatim copies of files with duplicated keys, raw spellings of one value, Fluent selects"""
+    rng = ctx.rng("c03", "directed", fmt)
+    keys = KEYS[fmt]
+    cases = []
+
+    def case(ref, l10n, kind, blank=False):
+        cases.append({"fmt": fmt, "ref": ref, "l10n": l10n, "blank": blank, "verdicts": None, "add": None, "kind": kind})
+    # (a) duplicates: the localization has the identical key sequence (verbatim copy / respelled / re-valued last / re-valued first)
+    vis = [v for v in legal_vis(fmt, keys[0]) if v < len(VALUES)]
+    for n in range(ctx.n(24, 300)):
+        nk = rng.choice([1, 2, 3, 4])
+        ks = rng.sample([k for k in keys if not (fmt == "ftl" and k.startswith("-"))], nk)
+        seq = list(ks)
+        for _ in range(rng.choice([1, 1, 2])):
+            seq.insert(rng.randrange(len(seq) + 1), rng.choice(ks))
+        ref = [("rec", k, rng.choice(vis), 0) for k in seq]
+        mode = n % 4
+        l10n = []
+        for i, (_, k, v, _) in enumerate(ref):
+            last = all(r[1] != k for r in ref[i + 1:])
+            if mode == 0:
+                l10n.append(("rec", k, v, 0))
+            elif mode == 1:
+                l10n.append(("rec", k, v, 1))
+            elif mode == 2:
+                l10n.append(("rec", k, rng.choice(vis) if last else v, 0))
+            else:
+                l10n.append(("rec", k, v if last else rng.choice(vis), 0))
+        case(ref, l10n, "dupcopy", blank=rng.random() < 0.3)
+    # (b) spellings: same value, different raw text -> unchanged; another value -> changed
+    mine = [2000 + i for i, sp in enumerate(SPELLINGS) if sp[0] == fmt]
+    for a in mine:
+        for b in mine:
+            ref = [("rec", keys[0], 0, 0), ("rec", keys[2], a, 0), ("rec", keys[3], 3, 0)]
+            l10n = [("rec", keys[3], 3, 0), ("rec", keys[2], b, 0)]
+            case(ref, l10n, "spelling")
+    # (c) Fluent: select expressions, terms, references, nested placeables — layouts of one entry are unchanged, other alternatives changed
+    if fmt == "ftl":
+        base = [("rec", k, ftl_vi(k, 0), 0) for k in FTL_SLOTS]
+        for i, k in enumerate(FTL_SLOTS):
+            for alt in range(len(FTL_AST[k])):
+                for variant in (0, 1):
+                    l10n = list(base)
+                    l10n[i] = ("rec", k, ftl_vi(k, alt), variant)
+                    case(base, l10n, "ftlast")
+            case(base, base[:i] + base[i + 1:], "ftlast")
+        for _ in range(ctx.n(60, 1500)):
+            ref, l10n = [], []
+            for k in rng.sample(FTL_SLOTS, rng.randrange(1, len(FTL_SLOTS) + 1)):
+                a = rng.randrange(len(FTL_AST[k]))
+                ref.append(("rec", k, ftl_vi(k, a), rng.randrange(2)))
+                r = rng.random()
+                if r < 0.4:
+                    l10n.append(("rec", k, ftl_vi(k, a), rng.randrange(2)))
+                elif r < 0.8:
+                    l10n.append(("rec", k, ftl_vi(k, rng.randrange(len(FTL_AST[k]))), rng.randrange(2)))
+            if rng.random() < 0.5:
+                rng.shuffle(l10n)
+            case(ref, l10n, "ftlast")
+    return cases
 
 
 # ------------------------------------------------------------------ cases
@@ -491,6 +815,13 @@ def driver_lines(case, v):
     lines = [" ".join(line.split())]
     if "add" in v:
         lines.append(" ".join(("c03.add 0 %d %s" % (len(v["add"]["ents"]), ents(v["add"]["ents"]))).split()))
+    if v.get("ftl"):
+        # round 4: the same comparison from the fluent.syntax ASTs alone (count_words / equals are the Lean functions)
+        fl = v["ftl"]
+        if case["verdicts"]:
+            code = {"warning": 1, "ignore": 2}
+            fl += " " + " ".join("%s %d" % (key_wire(k), code[c]) for k, c in sorted(case["verdicts"].items()))
+        lines.append(fl)
     return lines
 
 
@@ -506,10 +837,22 @@ def run(ctx):
                 "inc, android) resp. Fluent attribute edits (attribute text changed / attribute added or dropped / attribute-only messages / "
                 "multi-line values), plus seeded random "
                 "(records, edit script) pairs with up to 8 reference records, duplicates, junk lines, filters and a following missing-file add; "
+                "round 4 directed families: verbatim / respelled / re-valued copies of files with duplicated keys, every ordered pair of raw "
+                "spellings of one value (\\uXXXX, line continuation, &amp; / &#38; / &#x26;, CDATA, split PO strings) and of checker-relevant "
+                "values, Fluent entries with select expressions / terms / references / nested placeables in two layouts (every alternative "
+                "against the reference, and the whole equals matrix of the pool); "
+                "sessions: ONE comparer with 1-2 project observers through 2-3 locales x 1-5 files (compare / add / remove, files without "
+                "parser, unreadable reference or localization, text-level jobs with the full checker model for properties/ini/inc/po, merge "
+                "copies), locale-major or shuffled order; KeyedTuple membership / indexing with str, tuple, int, entity-object and unhashable "
+                "arguments; "
                 "count_words: every pool value in every format plus random markup token sequences. non-trivial = at least two of "
-                "missing/obsolete/changed/unchanged/keys are non-zero; distinct = distinct (format, canonical report)")
+                "missing/obsolete/changed/unchanged/keys are non-zero (sessions: at least two locales with non-zero counters); distinct = "
+                "distinct (format, canonical report)")
     for fmt in FORMATS:
         cases, exhaustive = gen_cases(ctx, fmt)
+        directed = gen_directed(ctx, fmt)
+        cases += directed
+        out.count("%s.directed" % fmt, len(directed))
         out.count("%s.cases" % fmt, len(cases))
         out.count("%s.exhaustive" % fmt, exhaustive)
         args = []
@@ -564,6 +907,9 @@ def run(ctx):
                 if "add" in v and mos[1] != v["add"]["canon"]:
                     out.disagreements.append({"op": "c03.add", "input": inp, "impl": v["add"]["canon"], "model": mos[1]})
                     continue
+                if v.get("ftl") and mos[-1] != v["canon"]:
+                    out.disagreements.append({"op": "c03.ftlcmp", "input": inp, "impl": v["canon"], "model": mos[-1]})
+                    continue
             # the summary is the accumulated updates plus one error / warning per notification
             notes = v["canon"].split(" |", 1)[1].split()
             ne = sum(1 for n in notes if n.startswith("E:")) + v["checker"][0]
@@ -574,6 +920,9 @@ def run(ctx):
             elif not c["verdicts"] and v["observer_summary"] != s:
                 out.disagreements.append({"op": "observer-summary", "input": inp, "list": s, "observer": v["observer_summary"]})
     run_words(ctx, out)
+    run_ftl_pool(ctx, out)
+    run_sessions(ctx, out)
+    run_keyed(ctx, out)
     cleanup()
     return out
 
@@ -643,10 +992,374 @@ def run_words(ctx, out):
             out.disagreements.append({"op": "c03.words", "value": v, "impl": r["r"], "model": mo})
 
 
+# ------------------------------------------------------------------ round 4: Fluent count_words / equals on the AST
+def run_ftl_pool(ctx, out):
+    """every alternative of every slot in both layouts, one file: word counts and the whole `equals` matrix by construction
+    (same id, value and — for messages — attributes <=> equals), and model vs implementation on the same ASTs"""
+    entries = [(k, alt, v) for k in FTL_SLOTS for alt in FTL_AST[k] for v in (0, 1)]
+    text = "\n\n".join(ftl_render(k, alt, v) for k, alt, v in entries) + "\n"
+    r = pool.pmap("impl.compare", "impl_ftl_pool", [[text]], timeout=30.0)[0]
+    inp = {"fmt": "ftl", "text": text}
+    if "r" not in r:
+        out.violations.append({"what": "ftl: parsing the pool of select expressions failed: %s" % r, "input": inp})
+        return
+    v = r["r"]
+    if v["keys"] != [k for k, _, _ in entries]:
+        out.violations.append({"what": "ftl: the pool file parsed into entries %s" % v["keys"], "input": inp})
+        return
+    lines = []
+    for i, (k, alt, lay) in enumerate(entries):
+        out.evaluations += 1
+        if v["words"][i] != ftl_words(k, alt):
+            out.violations.append({"what": "ftl: count_words = %d, expected %d (text elements of value%s, all variants of a select)" % (
+                v["words"][i], ftl_words(k, alt), "" if k.startswith("-") else " and attributes"),
+                "input": {"fmt": "ftl", "text": ftl_render(k, alt, lay)}})
+        out.nontrivial.add(("ftlwords", v["ser"][i]))
+        lines.append("c03.ftlwords " + v["ser"][i])
+    pairs = [(i, j) for i in range(len(entries)) for j in range(len(entries))]
+    for i, j in pairs:
+        out.evaluations += 1
+        (k1, a1, _), (k2, a2, _) = entries[i], entries[j]
+        want = ftl_sig(k1, a1) == ftl_sig(k2, a2)
+        if k1.startswith("-") != k2.startswith("-"):
+            continue                  # a term against a message: never compared by the comparer (their keys differ)
+        if bool(v["eq"][i][j]) != want:
+            out.violations.append({"what": "ftl: equals is %s for two entries that %s" % (bool(v["eq"][i][j]), "differ only in comments, spans "
+                                   "and layout" if want else "differ in value or attributes"),
+                                   "input": {"fmt": "ftl", "a": ftl_render(k1, a1, entries[i][2]), "b": ftl_render(k2, a2, entries[j][2])}})
+        lines.append("c03.ftleq %s %s" % (v["ser"][i], v["ser"][j]))
+    model = C.run_driver_parallel(lines) if ctx.model_ok else [None] * len(lines)
+    n = len(entries)
+    for i in range(n):
+        if model[i] is not None and model[i] != str(v["words"][i]):
+            out.disagreements.append({"op": "c03.ftlwords", "entry": ftl_render(*entries[i]), "impl": v["words"][i], "model": model[i]})
+    pos = n
+    for i, j in pairs:
+        if entries[i][0].startswith("-") != entries[j][0].startswith("-"):
+            continue
+        impl = "%d %d [%s]" % (v["eq"][i][j], v["eq"][j][i], ",".join(str(x) for x in v["attrs"][i][j]))
+        if model[pos] is not None and model[pos] != impl:
+            out.disagreements.append({"op": "c03.ftleq", "a": ftl_render(*entries[i]), "b": ftl_render(*entries[j]), "impl": impl, "model": model[pos]})
+        pos += 1
+    out.count("ftlpool.entries", n)
+
+
+# ------------------------------------------------------------------ round 4: ONE comparer, a sequence of (locale, file) jobs
+LOCALES = ["de", "fr", "ja", "pt-BR"]
+SESS_NAMES = [("properties", "browser/a.properties"), ("properties", "toolkit/b.properties"), ("dtd", "browser/a.dtd"),
+              ("ini", "browser/a.ini"), ("inc", "toolkit/defines.inc"), ("ftl", "browser/a.ftl"), ("ftl", "toolkit/b.ftl"),
+              ("po", "po/a.po"), ("android", "res/values/strings.xml"), ("properties", "browser/sub/a.properties")]
+NP_NAMES = ["browser/README.txt", "toolkit/image.png"]
+TEXT_LEVEL = ("properties", "ini", "inc", "po")
+PROPS_SPELL = [2000 + i for i, sp in enumerate(SPELLINGS) if sp[0] == "properties"]
+COUNTERS = ("missing", "missing_w", "report", "obsolete", "changed", "changed_w", "unchanged", "unchanged_w", "keys")
+
+
+def sess_pair(rng, fmt):
+    """a (reference records, localization items) pair as in the random family of gen_cases, without filters"""
+    keys = KEYS[fmt]
+    pool_keys = list(keys)
+    rng.shuffle(pool_keys)
+    ref_keys = pool_keys[:rng.choice([1, 2, 3, 4, 5, 6])]
+    if rng.random() < 0.15:
+        ref_keys.insert(rng.randrange(len(ref_keys) + 1), rng.choice(ref_keys))
+    ref_recs = [(k, (-1 if (fmt == "po" and rng.random() < 0.3) else rng.choice(legal_vis(fmt, k)))) for k in ref_keys]
+    if fmt == "properties" and rng.random() < 0.5:
+        # raw spellings and values the checkers report about
+        ref_recs = [(k, rng.choice(PROPS_SPELL) if rng.random() < 0.6 else vi) for k, vi in ref_recs]
+    return ref_recs
+
+
+def sess_l10n(rng, fmt, ref_recs):
+    ops = []
+    for k, vi in ref_recs:
+        r = rng.random()
+        if r < 0.35:
+            ops.append("keep")
+        elif r < 0.5:
+            ops.append("alt" if vi >= 0 else "keep")
+        elif r < 0.75:
+            ops.append("revalue:%d" % (rng.choice(PROPS_SPELL) if (fmt == "properties" and vi >= 2000) else rng.choice(legal_vis(fmt, k))))
+        else:
+            ops.append("drop")
+    fresh = [k for k in KEYS[fmt] if k not in [r[0] for r in ref_recs]]
+    rng.shuffle(fresh)
+    added = [(rng.randrange(9), k, rng.choice(legal_vis(fmt, k))) for k in fresh[:rng.choice([0, 0, 1, 2])]]
+    l10n = derive(ref_recs, ops, added, None)
+    if l10n and rng.random() < 0.1:
+        src = rng.choice(l10n)
+        l10n.insert(rng.randrange(len(l10n) + 1), ("rec", src[1], rng.choice(legal_vis(fmt, src[1])), 0))
+    if rng.random() < 0.4:
+        rng.shuffle(l10n)
+    if rng.random() < 0.12:
+        l10n.insert(rng.randrange(len(l10n) + 1), ("junk",))
+    return l10n
+
+
+def gen_session(rng):
+    locales = sorted(rng.sample(LOCALES, rng.choice([2, 2, 3])))
+    style = rng.choice(["flat", "flat", "module"])
+    names = rng.sample(SESS_NAMES, rng.choice([1, 2, 3, 4]))
+    if rng.random() < 0.35:
+        names.append((None, rng.choice(NP_NAMES)))
+    files, jobs, cases = [], [], []
+
+    def add_file(path, name, locale, text, isdir=False):
+        if style == "module":
+            module, _, rest = name.partition("/")
+            f = {"file": rest, "module": module, "locale": locale}
+        else:
+            f = {"file": "%s/%s" % (loc, name), "module": None, "locale": locale}
+        f.update({"path": path, "text": text, "dir": isdir, "name": name})
+        files.append(f)
+        return len(files) - 1
+    refs = {}
+    for fmt, name in names:
+        if fmt is None:
+            refs[name] = (None, None, "not a localizable file\n")
+        else:
+            ref_recs = sess_pair(rng, fmt)
+            ref = [("rec", k, v, 0) for k, v in ref_recs]
+            if rng.random() < 0.12:
+                ref.insert(rng.randrange(len(ref) + 1), ("junk",))
+            refs[name] = (ref_recs, ref, print_file(fmt, ref, False))
+    for loc in locales:
+        for fmt, name in names:
+            if rng.random() < 0.12:
+                continue                                  # this locale does not have the file at all, and is not asked about it
+            ref_recs, ref, ref_text = refs[name]
+            r = rng.random()
+            kind = "cmp" if r < 0.68 else "add" if r < 0.8 else "rm" if r < 0.88 else "re" if r < 0.92 else "le" if r < 0.95 else "addre"
+            if style == "module" and kind in ("re", "addre"):
+                kind = "cmp"                              # a reference File has no locale: Tree segments with None are not modelled
+            if fmt is None and kind in ("re", "le", "addre"):
+                kind = "cmp"
+            l10n = sess_l10n(rng, fmt, ref_recs) if fmt is not None else None
+            l10n_text = print_file(fmt, l10n, False) if fmt is not None else "something else\n"
+            ri = add_file("en/%s/%s" % (loc, name), name, None, None if kind in ("re", "addre", "rm") else ref_text, isdir=kind in ("re", "addre"))
+            li = add_file("l10n/%s/%s" % (loc, name), name, loc, None if kind in ("add", "addre", "le") else l10n_text, isdir=kind == "le")
+            level = "text" if (fmt in TEXT_LEVEL and rng.random() < 0.6) else "ents"
+            op = {"cmp": "cmp", "re": "cmp", "le": "cmp", "add": "add", "addre": "add", "rm": "rm"}[kind]
+            # no merge file for entity-level comparisons (staging needs the texts) and where the copy source is a directory
+            merge = rng.random() < 0.4 and not (op == "cmp" and level == "ents" and fmt is not None and kind == "cmp") and kind != "addre"
+            jobs.append({"op": op, "ref": ri, "l10n": li, "merge": merge, "level": level, "fmt": fmt})
+            cases.append({"kind": kind, "fmt": fmt, "name": name, "locale": loc,
+                          "case": None if fmt is None else {"fmt": fmt, "ref": ref, "l10n": l10n, "blank": False, "verdicts": None, "add": None}})
+    if rng.random() < 0.3:
+        order = list(range(len(jobs)))
+        rng.shuffle(order)
+        jobs = [jobs[i] for i in order]
+        cases = [cases[i] for i in order]
+    # project observers
+    r = rng.random()
+    judged = True
+    if r < 0.4:
+        observers = [None]
+    elif r < 0.5:
+        observers = [None, None]
+    else:
+        # two projects: one owns browser/, the other everything else; a file that is not one's own is ignored altogether
+        observers = [[], []]
+        for i, f in enumerate(files):
+            owner = 0 if f["name"].startswith("browser/") else 1
+            observers[1 - owner].append([i, "*", "ignore"])
+        if rng.random() < 0.3:
+            # entity-level rules: outside the property ("nothing filtered"), judged by the correspondence only
+            judged = False
+            for i, f in enumerate(files):
+                if f["locale"] is not None and rng.random() < 0.7:
+                    fmt = next((c["fmt"] for c, j in zip(cases, jobs) if j["l10n"] == i), None)
+                    if fmt:
+                        for k in rng.sample(KEYS[fmt], 3):
+                            observers[rng.randrange(2)].insert(0, [i, list(k) if isinstance(k, tuple) else k, rng.choice(["warning", "ignore"])])
+                    if rng.random() < 0.4:
+                        # the file itself: add() stops after missingFile only when ALL projects ignore it
+                        for o in rng.choice([[0], [1], [0, 1]]):
+                            observers[o].insert(0, [i, None, rng.choice(["ignore", "ignore", "warning"])])
+    quiet = rng.choice([0, 0, 0, 0, 1, 2, 3])
+    owners = []
+    for i, f in enumerate(files):
+        owners.append([n for n, rules in enumerate(observers) if rules is None or not any(r[0] == i and r[1] == "*" for r in rules)])
+    return {"spec": {"quiet": quiet, "files": files, "observers": observers, "jobs": jobs}, "cases": cases, "judged": judged,
+            "owners": owners}
+
+
+def session_oracle(sess, v):
+    """per job the single-comparison oracle on what that job notified and pushed; then every summary = the per-locale sum of the
+    expected per-file counts, for the list and for every project observer (over the files it owns)"""
+    spec = sess["spec"]
+    nobs = len(spec["observers"])
+    want = {"L": {}, "O": [dict() for _ in range(nobs)]}
+
+    def bump(fi, key, n):
+        loc = str(spec["files"][fi]["locale"])
+        for tgt in [want["L"]] + [want["O"][o] for o in sess["owners"][fi]]:
+            tgt.setdefault(loc, {}).setdefault(key, 0)
+            tgt[loc][key] += n
+    for n, (job, c, jo) in enumerate(zip(spec["jobs"], sess["cases"], v["jobs"])):
+        where = "job %d (%s %s, locale %s)" % (n, c["kind"], c["name"], c["locale"])
+        notes = [x for x in jo["notes"]]
+        for fi, note, rv in notes:
+            if note.startswith("E:"):
+                bump(fi, "errors", 1)
+            elif note.startswith("W:"):
+                bump(fi, "warnings", 1)
+        if any(fi not in (job["ref"], job["l10n"]) for fi, _, _ in notes):
+            return where + ": a notification names a file of another job"
+        parsed = c["fmt"] is not None
+        if c["kind"] == "cmp" and parsed:
+            if len(jo["pushes"]) != 1 or jo["pushes"][0][0] != job["l10n"]:
+                return where + ": stats were pushed %d times, expected once for the localized file" % len(jo["pushes"])
+            if any(fi != job["l10n"] for fi, _, _ in notes):
+                return where + ": a notification of a comparison names another file than the localized one"
+            upd = jo["pushes"][0][1]
+            canon = "ok " + ",".join("%s=%d" % kv for kv in upd.items()) + " |" + "".join(
+                " " + note for _, note, _ in notes if note[:2] in ("M:", "O:"))
+            bad = oracle(c["case"], {"r": {"canon": canon, "hooks": jo["hooks"], "summary": upd}})
+            if bad:
+                return where + ": " + bad
+            for k in COUNTERS:
+                bump(job["l10n"], k, upd.get(k, 0))
+        elif c["kind"] == "add" and parsed:
+            recs = [it for it in c["case"]["ref"] if it[0] == "rec"]
+            w = sum(words(c["fmt"], it[1], it[2]) for it in recs)
+            got = {}
+            for fi, st in jo["pushes"]:
+                if fi != job["l10n"]:
+                    return where + ": stats pushed for another file"
+                for k, x in st.items():
+                    got[k] = got.get(k, 0) + x
+            if got != {"missing": len(recs), "missing_w": w}:
+                return where + ": a missing file with %d strings (%d words) pushed %s" % (len(recs), w, got)
+            if [[fi, note] for fi, note, _ in notes] != [[job["l10n"], "F:file"]]:
+                return where + ": notifications %s, expected one missingFile for the localized file" % [x[:2] for x in notes]
+            bump(job["l10n"], "missing", len(recs))
+            bump(job["l10n"], "missing_w", w)
+        else:
+            if jo["pushes"]:
+                return where + ": stats pushed %s, expected none" % jo["pushes"]
+            R, L = job["ref"], job["l10n"]
+            # which file each notification is about: an unreadable reference is reported for the REFERENCE file
+            exp_notes = {"cmp": [], "add": [[L, "F:file"]], "rm": [[L, "R:file"]], "re": [[R, "E:other"]], "le": [[L, "E:other"]],
+                         "addre": [[L, "F:file"], [R, "E:other"]]}[c["kind"]]
+            if [[fi, note] for fi, note, _ in notes] != exp_notes:
+                return where + ": notifications (file, kind) %s, expected %s" % ([x[:2] for x in notes], exp_notes)
+    # the sums
+    for who, got, exp in [("the list", v["summary"]["L"], want["L"])] + [
+            ("project observer %d" % i, v["summary"]["O"][i], want["O"][i]) for i in range(nobs)]:
+        for loc in sorted(set(got) | set(exp)):
+            for k in ("errors", "warnings") + COUNTERS:
+                g, e = got.get(loc, {}).get(k, 0), exp.get(loc, {}).get(k, 0)
+                if g != e:
+                    return "summary of %s for locale %s: %s = %d, expected the sum over that locale's files = %d" % (who, loc, k, g, e)
+    return None
+
+
+def directed_sessions():
+    """add() / remove() of one file under every combination of file-level verdicts of two project observers, at every quiet
+    level that changes what is shown — outside the property (filters), judged by the correspondence"""
+    out = []
+    text = print_file("properties", [("rec", "alpha", 0, 0), ("rec", "beta", 2, 0)], False)
+    for op in ("add", "rm"):
+        for v0 in ("error", "warning", "ignore"):
+            for v1 in ("error", "warning", "ignore"):
+                for quiet in (0, 2):
+                    files = [{"file": "de/browser/a.properties", "module": None, "locale": None, "path": "en/de/browser/a.properties",
+                              "text": text if op == "add" else None, "dir": False, "name": "browser/a.properties"},
+                             {"file": "de/browser/a.properties", "module": None, "locale": "de", "path": "l10n/de/browser/a.properties",
+                              "text": None if op == "add" else text, "dir": False, "name": "browser/a.properties"}]
+                    observers = [[[1, None, v0]], [[1, None, v1]]]
+                    jobs = [{"op": op, "ref": 0, "l10n": 1, "merge": False, "level": "ents", "fmt": "properties"}]
+                    out.append({"spec": {"quiet": quiet, "files": files, "observers": observers, "jobs": jobs},
+                                "cases": [{"kind": op, "fmt": "properties", "name": "browser/a.properties", "locale": "de", "case": None}],
+                                "judged": False, "owners": [[0, 1], [0, 1]]})
+    return out
+
+
+def run_sessions(ctx, out):
+    rng = ctx.rng("c03", "sessions")
+    sessions = [gen_session(rng) for _ in range(ctx.n(110, 2500))] + directed_sessions()
+    res = pool.pmap("impl.compare", "impl_session", [[s["spec"]] for s in sessions], timeout=20.0, batch=6)
+    lines = [r["r"]["line"] if "r" in r else "c03.sess" for r in res]
+    model = C.run_driver_parallel(lines) if ctx.model_ok else [None] * len(lines)
+    for s, r, mo in zip(sessions, res, model):
+        out.evaluations += 1
+        inp = {"session": s["spec"], "cases": s["cases"], "owners": s["owners"], "judged": s["judged"]}
+        if "r" not in r:
+            out.violations.append({"what": "session: a job sequence on one comparer raised %s: %s" % (r.get("exc"), r.get("msg")), "input": inp})
+            continue
+        v = r["r"]
+        out.count("session.jobs", len(s["spec"]["jobs"]))
+        out.count("session.locales=%d" % len({c["locale"] for c in s["cases"]}))
+        for c in s["cases"]:
+            out.count("session.kind." + c["kind"])
+        if s["judged"]:
+            # with two project observers every file is owned by one of them: nothing is filtered out of the list's view
+            bad = session_oracle(s, v)
+            if bad:
+                out.violations.append({"what": "session: " + bad, "input": inp})
+                continue
+        if len([1 for loc, d in v["summary"]["L"].items() if any(d.values())]) >= 2:
+            out.nontrivial.add(("session", v["canon"]))
+        if mo is not None and mo != v["canon"]:
+            out.disagreements.append({"op": "c03.sess", "input": inp, "impl": v["canon"], "model": mo})
+
+
+def run_keyed(ctx, out):
+    """KeyedTuple.__contains__ / __getitem__ with every kind of argument: str and tuple keys (present, absent, duplicated),
+    ints, the entity objects themselves, an unhashable list"""
+    rng = ctx.rng("c03", "keyed")
+    args = []
+    for fmt in ("properties", "po", "ftl"):
+        for _ in range(ctx.n(6, 120)):
+            ks = rng.sample(KEYS[fmt], rng.randrange(0, 6))
+            if ks and rng.random() < 0.4:
+                ks.insert(rng.randrange(len(ks) + 1), rng.choice(ks))
+            items = [("rec", k, rng.choice(legal_vis(fmt, k)), 0) for k in ks]
+            if rng.random() < 0.3:
+                items.insert(rng.randrange(len(items) + 1), ("junk",))
+            probes = [["k", list(k) if isinstance(k, tuple) else k] for k in rng.sample(KEYS[fmt], 5)]
+            probes += [["k", "nope"], ["k", ["nope", None]], ["u"]]
+            probes += [["i", i] for i in range(-len(items) - 2, len(items) + 2)] + [["o", i] for i in range(len(items) + 2)]
+            args.append([fmt, print_file(fmt, items, False), probes, len(items)])
+    res = pool.pmap("impl.compare", "impl_keyed", args, timeout=10.0, batch=8)
+    lines, owner = [], []
+    for a, r in zip(args, res):
+        if "r" not in r:
+            out.violations.append({"what": "KeyedTuple: %s" % r, "input": {"fmt": a[0], "text": a[1]}})
+            continue
+        for line, canon, probe in r["r"]:
+            lines.append(line)
+            owner.append((a, canon, probe))
+    model = C.run_driver_parallel(lines) if ctx.model_ok else [None] * len(lines)
+    for (a, canon, probe), mo in zip(owner, model):
+        out.evaluations += 1
+        out.count("keyed." + canon.replace(" ", "_").split("_item")[0])
+        # the dict-like contract: a key is `in` the tuple iff indexing by it returns an entity with that key
+        if probe[0] == "k" and (canon[0] == "1") != canon[2:].startswith("item"):
+            out.violations.append({"what": "KeyedTuple: `key in entities` is %s but `entities[key]` gives %s" % (canon[0], canon[2:]),
+                                   "input": {"fmt": a[0], "text": a[1], "probe": probe}})
+        elif probe[0] == "o" and canon[0] != ("1" if probe[1] < int(a[3]) else "0"):
+            # the sequence contract: exactly the tuple's own entity objects are `in` it
+            out.violations.append({"what": "KeyedTuple: entity object %d of %d is%s `in` the tuple" % (probe[1], int(a[3]), "" if canon[0] == "1" else " not"),
+                                   "input": {"fmt": a[0], "text": a[1], "probe": probe}})
+        elif mo is not None and mo != canon:
+            out.disagreements.append({"op": "c03.keyed", "input": {"fmt": a[0], "text": a[1], "probe": probe}, "impl": canon, "model": mo})
+
+
 def replay(payload):
     res = []
     for v in payload.get("violations", []):
         i = v["input"]
+        if "session" in i:
+            r = pool.pmap("impl.compare", "impl_session", [[i["session"]]], timeout=60.0)[0]
+            if "r" not in r:
+                judged = "the job sequence raised %s" % r.get("exc")
+            else:
+                judged = session_oracle({"spec": i["session"], "cases": i["cases"], "owners": i["owners"]}, r["r"]) if i["judged"] else None
+            res.append({"input": {"jobs": [[j["op"], i["session"]["files"][j["l10n"]]["path"]] for j in i["session"]["jobs"]]},
+                        "oracle": judged, "report": r["r"]["summary"] if "r" in r else r})
+            continue
         if "reference" not in i:
             continue
         case = dict(i["case"])
